@@ -410,6 +410,9 @@ func vfC14Run(c vfC14Case, ctx *vfCtx) *vfViolation {
 	var keptSearch VectorSearch
 	var keptHits []vfHit
 	keptAt, mutations := -1, 0
+	var oldSearch VectorSearch
+	var oldBuild func() VectorSearch
+	oldAt := -1
 	for i, op := range c.Ops {
 		if op.Op != "search" {
 			mutations++
@@ -533,6 +536,29 @@ func vfC14Run(c vfC14Case, ctx *vfCtx) *vfViolation {
 						}
 					}
 					keptSearch, keptHits, keptAt = s, vfHitsOf(r), mutations
+				}
+				if err == nil {
+					// a search object kept across adds / removes / flushes answers exactly as a new object
+					// built with the same parameters does now (nothing of an earlier execution - a clamped k,
+					// a cached candidate list - may stay behind in it)
+					if oldSearch != nil && oldAt != mutations {
+						if msg := vfSameAnswer(oldSearch, oldBuild()); msg != "" {
+							return nil, fmt.Errorf("a search object first executed %d mutations ago, executed again: %s", mutations-oldAt, msg)
+						}
+						ctx.Class("kept_search_object_compared_with_a_new_one_after_mutations")
+						oldSearch = nil
+					}
+					if oldSearch == nil {
+						vec, ids, k, np := vfCloneF32(op.Vec), append([]uint32(nil), op.IDs...), op.K, op.NP
+						oldSearch, oldAt = s, mutations
+						oldBuild = func() VectorSearch {
+							n := idx.NewSearch().WithQuery(vfCloneF32(vec)).WithK(k).WithThreshold(thr).WithNProbes(np)
+							if len(ids) > 0 {
+								n = n.WithDocumentIDs(ids...)
+							}
+							return n
+						}
+					}
 				}
 				return vfHitsOf(r), err
 			}
